@@ -126,6 +126,10 @@ impl<'a> Ctx<'a> {
         if let Some(r) = self.tag_match(m, expect, &conts)? {
             return Ok(r);
         }
+        // loops.rs (opt-in): `match s { v if g => …, _ => … }` over irrefutable patterns
+        if let Some(r) = self.ext_guard_chain(m, expect, &conts)? {
+            return Ok(r);
+        }
         // a tuple literal scrutinee becomes a multi-discriminant match
         let (scruts, stys): (Vec<L>, Vec<Ty>) = match &*m.expr {
             Expr::Tuple(t) if !t.elems.is_empty() => {
@@ -313,6 +317,11 @@ impl<'a> Ctx<'a> {
 
     // ------------------------------------------------------------------------------------------ function bodies
     fn ret(&self, v: L) -> R<L> {
+        // loops.rs: a function run under fuel returns `Option`
+        let r = self.ret_plain(v)?;
+        Ok(if self.ext.fueled { L::app("some", vec![r]) } else { r })
+    }
+    fn ret_plain(&self, v: L) -> R<L> {
         let key = self.mut_param.clone().unwrap_or("self".to_string());
         let self_l = || self.locals.get(&key).map(|x| L::A(x.0.clone())).ok_or("no self".to_string());
         match self.ret {
@@ -336,7 +345,7 @@ impl<'a> Ctx<'a> {
         self.seq(&b.stmts, true, &[])
     }
 
-    fn cont(&mut self, conts: &[Frame]) -> R<L> {
+    pub(crate) fn cont(&mut self, conts: &[Frame]) -> R<L> {
         match conts.split_first() {
             None => self.ret_unit(),
             Some((f, rest)) => {
@@ -346,7 +355,7 @@ impl<'a> Ctx<'a> {
         }
     }
 
-    fn seq(&mut self, stmts: &[Stmt], value_tail: bool, conts: &[Frame]) -> R<L> {
+    pub(crate) fn seq(&mut self, stmts: &[Stmt], value_tail: bool, conts: &[Frame]) -> R<L> {
         let (st, rest) = match stmts.split_first() {
             None => return self.cont(conts),
             Some(x) => x,
@@ -389,6 +398,10 @@ impl<'a> Ctx<'a> {
                             return Ok(self.emit_interaction(it, &binder, b));
                         }
                     }
+                }
+                // loops.rs (opt-in): view declarations, the mutating fold over a view, argument-updating closures
+                if let Some(r) = self.ext_local(l, rest, value_tail, conts)? {
+                    return Ok(r);
                 }
                 let lets = self.local(l, nested)?;
                 let mut b = self.seq(rest, value_tail, conts)?;
@@ -478,6 +491,10 @@ impl<'a> Ctx<'a> {
 
     /// `e` is executed as a statement, then the continuation runs
     pub(crate) fn stmt_expr(&mut self, e: &Expr, conts: &[Frame]) -> R<L> {
+        // loops.rs (opt-in): `for` as map / fold, `loop` under fuel, method-call statements, joined `if`
+        if let Some(l) = self.ext_stmt(e, conts)? {
+            return Ok(l);
+        }
         match e {
             Expr::Paren(p) => self.stmt_expr(&p.expr, conts),
             Expr::Tuple(t) if t.elems.is_empty() => self.cont(conts),
@@ -594,7 +611,7 @@ impl<'a> Ctx<'a> {
         }
         self.assign_into(lhs, v)
     }
-    fn assign_into(&mut self, lhs: &Expr, v: L) -> R<(String, L)> {
+    pub(crate) fn assign_into(&mut self, lhs: &Expr, v: L) -> R<(String, L)> {
         match lhs {
             Expr::Paren(p) => self.assign_into(&p.expr, v),
             // destructuring assignment `(a, b) = e` to plain locals
